@@ -5,6 +5,7 @@ impl Copy for BytePos {}
 pub struct Span { pub start: BytePos, pub end: BytePos }
 impl Clone for Span { fn clone(&self) -> (r: Span) ensures r == *self { Span { start: self.start, end: self.end } } }
 impl Copy for Span {}
+#[derive(PartialEq, Eq, Structural)]
 pub enum Ordering { Less, Equal, Greater }
 
 impl Span {
@@ -83,8 +84,13 @@ impl Pat {
     #[verifier::external_body]
     pub fn env_type_of(&self, env: &TypeEnvRef) -> Ty requires well_typed(*self) { unimplemented!() }
 }
-pub struct Type;
+// base::types::Type projected: the variants the position search on types tells apart (payloads opaque); `Type::hole()`
+pub enum Type { ExtendRow { p: u8 }, ExtendTypeRow { p: u8 }, Forall(u8), Ident(u8), Builtin(u8), Generic(u8), Alias(u8), Other(u8) }
+pub uninterp spec fn type_span(t: Type) -> Span;
 impl Type {
+    // AstType::span(): the source range of a type node (well formed: start <= end)
+    #[verifier::external_body]
+    pub fn span(&self) -> (r: Span) ensures r == type_span(*self), r.wf() { unimplemented!() }
     #[verifier::external_body]
     pub fn hole() -> Ty { unimplemented!() }
 }
